@@ -7,9 +7,9 @@ import Sio.Props.C08
 #print axioms Sio.C08.bad_namespace
 #print axioms Sio.C08.bad_namespace_iff
 #print axioms Sio.C08.connect_handler_once
-#print axioms Sio.C08.notifications
-#print axioms Sio.C08.disconnect_once
-#print axioms Sio.C08.reset
+#print axioms Sio.C08.notifications_partial
+#print axioms Sio.C08.disconnect_once_partial
+#print axioms Sio.C08.reset_partial
 #print axioms Sio.C08.reset_transport
 #print axioms Sio.C08.F8_witness
 #print axioms Sio.C08.F8b_witness
